@@ -52,18 +52,18 @@ NAME_GRAMMARS = [
 
 
 def _systematic_names():
-    """Every identifier of up to 3 characters over {_, a, 1} (underscore patterns that Enum / name mangling treat specially),
+    """Every identifier of up to 3 characters over {_, a, A, 1} (underscore patterns that Enum / name mangling treat specially),
     plus Python keywords, builtins and the identifiers the generated module itself uses."""
     import itertools
 
-    short = [f + "".join(t) for f in "_a" for k in range(0, 3) for t in itertools.product("_a1", repeat=k)]
+    short = [f + "".join(t) for f in "_aA" for k in range(0, 3) for t in itertools.product("_aA1", repeat=k)]
     short += ["__a__", "_a__", "__a_", "_1_", "___", "____a", "_a_a_"]
     words = ["SKIP", "class", "def", "None", "True", "import", "self", "state", "pairs", "parse", "Rule", "skip_trivia", "Pair", "Pairs", "re", "regex", "pos", "matched", "print", "len", "str", "input",
              "stack", "rule", "rules", "Parser", "ParserState", "PestParsingError", "RuleFrame", "lambda", "async", "match", "case", "type", "__init__", "__name__", "parse_a", "children", "start", "Enum", "StrEnum",
              "auto", "annotations", "Iterator", "TYPE_CHECKING", "_RULE_MAP", "modifier", "tag", "mro", "name", "value", "_ignore_", "_missing_", "_order_", "_generate_next_value_", "RULE_A_", "rule_a_", "A", "a_A"]
     names = list(dict.fromkeys(short + words))
     text = "".join(f'{n} = {{ "a" ~ "b"? }}\n' for n in names) + "top = { " + " | ".join(names) + " }\n"
-    return ("systematic-names", text, tuple(names[:40]) + ("top",)), ("systematic-names-2", text, tuple(names[40:80])), ("systematic-names-3", text, tuple(names[80:]))
+    return tuple((f"systematic-names-{i // 40 + 1}", text, tuple(names[i:i + 40]) + (("top",) if i == 0 else ())) for i in range(0, len(names), 40))
 
 
 NAME_GRAMMARS += list(_systematic_names())
